@@ -3,12 +3,14 @@
   Status: there is no universal soundness theorem for the deeper iterations (speculative null-move
   pruning); the whole property is decided by exploration against the Lean mate solver
   (`mateinfo` / `matecheck` in the driver) over mate/stalemate neighbourhoods.  Proved here: the
-  arithmetic that turns a mate evaluation into the printed distance and back, for the values the
+  `mate_in_one_played` for iterations 1–3 with a clock that does not expire (if some root move
+  checkmates, the iteration ends with score MATE−1 and the move remembered checkmates);
+  the arithmetic that turns a mate evaluation into the printed distance and back, for the values the
   search assigns (`mate_distance_of_win`, `mate_distance_of_loss`), and a draw value (stalemate,
   repetition) is never in a mate band, so it is printed as `cp 0` (`stalemate_not_mate`,
   `draw_is_reported_as_cp`).
 -/
-import Walleye.Proofs.Reports
+import Walleye.Proofs.RootCorollaries
 import Walleye.Model.SearchChess
 namespace Walleye
 
@@ -31,6 +33,43 @@ theorem mate_distance_of_loss (n : Int) (h1 : 1 ≤ n) (h7 : n ≤ 7) :
   have : (100000 + -(100000 - 2 * n) : Int) = 2 * n := by omega
   rw [this, Int.tdiv_neg, Int.tdiv_eq_ediv_of_nonneg (by omega)]
   omega
+
+variable {P O : Type} (g : Game P) (ord : Oracle P O)
+
+/-- if the side to move can give checkmate in one move, an iteration (1, 2 or 3) that runs to its
+    end finishes with the score MATE − 1 (printed `mate 1`) and the move it remembers gives checkmate -/
+theorem mate_in_one_played (E : Nat) (hg : GameOK g E) (hord : OrdPerm ord) (fuel curDepth : Nat) (first : P)
+    (t : DrawTable) (hcd : curDepth - 1 < 3) (hE : (E : Int) + 1 + (fuel + 1) < Gen.mateScore) (l : List P)
+    (best : Option P) (m : P) (hm : m ∈ l) (h3 : t.isThreefold (g.key m) = false)
+    (hmate : g.gen m .all = [] ∧ g.inCheck m = true) :
+    Triple (St t) (rootLoop g ord (fuel + 1) curDepth first l (-Gen.posInf) best)
+      (fun r _ => ∃ B, r = some (Gen.mateScore - 1, some B) ∧ B ∈ l ∧ g.gen B .all = [] ∧ g.inCheck B = true) := by
+  refine ⟨?_⟩
+  intro s r s' hst he
+  obtain ⟨_, A, B, hr, hA, hB1, _⟩ := (rootLoop_triple g ord E hg hord (fuel + 1) curDepth first t hcd hE l (-Gen.posInf) best
+    (Int.le_refl _) (by decide)).run s r s' hst he
+  have hv := negamax_mated g fuel (curDepth - 1) 1 t m h3 hmate.1 hmate.2
+  have h0 := maxNeg_mem (Spec.negamax g (fuel + 1) (curDepth - 1) 1 t) l (-Gen.posInf) m hm
+  rw [← hA, hv] at h0
+  -- nothing is worth more than MATE − 1 at ply 1
+  have hub : A ≤ Gen.mateScore - 1 := by
+    rw [hA]
+    apply (maxNeg_bound _ l (-Gen.posInf) (-Gen.posInf) (Gen.mateScore - 1) ⟨Int.le_refl _, by decide⟩ ?_).2
+    intro x _
+    have := negamax_range g E hg (fuel + 1) (curDepth - 1) 1 t x (by push_cast; omega)
+    have hp : (Gen.posInf : Int) = 9999999 := rfl
+    have hmm : (Gen.mateScore : Int) = 100000 := rfl
+    push_cast at this
+    omega
+  have hAe : A = Gen.mateScore - 1 := by push_cast at h0; omega
+  have hlt : -Gen.posInf < A := by rw [hAe]; decide
+  obtain ⟨b, hb, hBe, hbv⟩ := hB1 hlt
+  refine ⟨b, by rw [hr, hAe, hBe], hb, ?_⟩
+  -- a move worth MATE − 1 is a checkmate
+  exact Classical.byContradiction fun hnm => by
+    have := negamax_gt_unless_mated g E hg fuel (curDepth - 1) 1 t b (by push_cast; omega) hnm
+    push_cast at this
+    omega
 
 /-- a draw score (stalemate, repetition) is never printed as a mate -/
 theorem stalemate_not_mate : ¬ ((0 : Int) ≥ Gen.mateScore - Gen.mateWindow) ∧ ¬ ((0 : Int) ≤ -Gen.mateScore + Gen.mateWindow) := by
